@@ -64,6 +64,10 @@ def run_checks(sid, repo, verif, env):
                 break
     finally:
         sh('git -C %s checkout -q -- . && git -C %s clean -fdq' % (repo, repo))
+        if repo == '/repo':
+            # an in-place run executes /verif/run.py itself, which rewrites /verif/evidence/<id>.json with
+            # what it saw on the *changed* tree: put the committed evidence back
+            sh('git -C /verif checkout -q -- evidence')
     if env.get('VERIF_ONLY'):
         # partial re-run (only the named obligations, e.g. ones added later): merged into the
         # existing matrix under its own key, the full-check entries stay as they were
